@@ -190,6 +190,7 @@ static bool parse_pattern(const char* s, pattern* p) {
   return false;
 }
 static void pattern_fill(pattern* p, uint8_t* dst, size_t n) {
+  if (!n) return;
   if (p->mode == 1) {
     memset(dst, p->byte, n);
   } else if (p->mode == 2) {
